@@ -237,3 +237,66 @@ def shapesOf (g : AGrammar) (ts : List SymType) (fixed : Bool) : Shapes :=
 def repoFixed : Bool := false
 
 end Rustemo.Ast
+
+namespace Rustemo.Ast
+
+/-! ## the builder as the stack machine it is
+
+`DefaultBuilder { res_stack }`: the parser (LR) or `Tree::build_inner` (GLR replay) calls
+`shift_action` for every token and `reduce_action(prod, prod_len)` after the children of a node, in
+post-order; an arm first does `res_stack.split_off(res_stack.len() - n)` with `n` the CONSTANT rhs
+length for productions without right-nulled arms and `prod_len` otherwise (`0`: EMPTY productions pop
+nothing). `run` is that machine; `Proofs/AstStack.lean` shows it computes `eval`. -/
+
+inductive Ev
+  | shift (t : Nat) (text : String)
+  | reduce (p : Nat) (len : Nat)
+  deriving Repr, DecidableEq, Inhabited
+
+mutual
+/-- the builder calls for a tree -/
+def PTree.events : PTree → List Ev
+  | .leaf t text => [.shift t text]
+  | .node p kids => PTree.eventsL kids ++ [.reduce p kids.length]
+def PTree.eventsL : List PTree → List Ev
+  | [] => []
+  | t :: ts => t.events ++ PTree.eventsL ts
+end
+
+/-- how many stack entries the arm of the production splits off when called with `prod_len = len` -/
+def popCount (p : PShape) (len : Nat) : Nat :=
+  let rhsLen := p.content.length
+  if rhsLen == 0 || !p.content.any id || p.rnLen == rhsLen then rhsLen else len
+
+/-- one builder call on the result stack (top of the stack = head of the list) -/
+def stepEv (sh : Shapes) (stack : List (Option Val)) : Ev → Except Err (List (Option Val))
+  | .shift t text =>
+    match evalLeaf sh t text with
+    | .error e => .error e
+    | .ok r => .ok (r :: stack)
+  | .reduce p len =>
+    match sh.prods[p]? with
+    | none => .error (.panic "unknown production")
+    | some ps =>
+      if !ps.reachable then .error (.panic "Reduce of unreachable nonterminal!")
+      else
+        let n := popCount ps len
+        if n ≠ len then .error .stack               -- entries of another node would be consumed / left over
+        else if stack.length < n then .error (.panic "split_off out of range")
+        else match reduce sh ps (stack.take n).reverse with
+          | .error e => .error e
+          | .ok v => .ok (some v :: stack.drop n)
+
+def run (sh : Shapes) : List Ev → List (Option Val) → Except Err (List (Option Val))
+  | [], stack => .ok stack
+  | e :: es, stack =>
+    match stepEv sh stack e with
+    | .error err => .error err
+    | .ok stack' => run sh es stack'
+
+/-- `Builder::get_result`: pop the top of the stack -/
+def getResult : List (Option Val) → Except Err Val
+  | some v :: _ => .ok v
+  | _ => .error (.panic "Invalid result on the parse stack!")
+
+end Rustemo.Ast
